@@ -203,7 +203,7 @@ var glLib = map[string]glExtern{
 	"errors.New":        {lean: "some", ret: []string{"error"}},
 }
 
-var glIgnoredCallPrefixes = []string{"logger.", "log.", "state.logger.", "s.logger.", "pa.logger.", "logger .", "fmt.Print"}
+var glIgnoredCallPrefixes = []string{"logger.", "log.", "state.logger.", "s.logger.", "pa.logger.", "state.Mutex.", "logger .", "fmt.Print"}
 
 func (c *glCtx) ignorable(call *ast.CallExpr) bool {
 	s := c.p.str(call.Fun)
@@ -1396,12 +1396,24 @@ func (c *glCtx) block(fd *ast.FuncDecl) string {
 			}
 			from = i
 		}
-		if strings.HasPrefix(txt, c.t.blockUpto) {
+		if c.t.blockUpto != "" && strings.HasPrefix(txt, c.t.blockUpto) {
 			if upto >= 0 {
 				c.fail(st, "block end %q matches more than one statement", c.t.blockUpto)
 			}
 			upto = i
 		}
+	}
+	if c.t.blockUpto == "" && from >= 0 {
+		// tail block: from the statement to the end of the function; its returns are the function's returns
+		c.void = fd.Type.Results == nil || len(fd.Type.Results.List) == 0
+		c.nres = len(goResultTypes(c.p, fd.Name.Name))
+		pre := ""
+		if c.t.traceLean != "" {
+			c.declare("trace_", "[]effect")
+			pre = "let trace_ := ([] : List " + c.t.traceLean + ");" + ind(1)
+		}
+		body := c.stmts(append([]ast.Stmt{}, fd.Body.List[from:]...), 1)
+		return "def " + c.t.name + " " + c.t.binders + " : " + c.t.retLean + " :=\n  " + pre + body + "\n"
 	}
 	if from < 0 || upto < 0 || upto <= from {
 		c.fail(fd, "block %q … %q not found in %s", c.t.blockFrom, c.t.blockUpto, fd.Name.Name)
@@ -1483,6 +1495,9 @@ func genGo2Lean(e *emitter) {
 				src = p.str(fd)
 			} else if t.in != "" {
 				src = "block of " + t.in + ": from `" + t.blockFrom + "` up to `" + t.blockUpto + "`, then " + t.blockResult
+				if t.blockUpto == "" {
+					src = "tail of " + t.in + ": from `" + t.blockFrom + "` to the end of the function"
+				}
 			}
 			b.WriteString("/- " + t.pkg + " " + t.name + " (" + status + ")\n   " + strings.ReplaceAll(src, "-/", "- /") + " -/\n")
 			b.WriteString(text + "\n")
